@@ -75,7 +75,7 @@ static Plan minimise(const Workload& w, const Plan& orig, const Violation& targe
 }
 
 int main(int argc, char** argv) {
-    std::string workload, tier = "quick", focus, planfile; uint64_t s0 = 1, s1 = 1; bool do_min = true; double dual_frac = 0.0; int min_budget = 150;
+    std::string workload, tier = "quick", focus, planfile; uint64_t s0 = 1, s1 = 1; bool do_min = true, print_plan = false; double dual_frac = 0.0; int min_budget = 150;
     for (int i = 1; i < argc; i++) {
         std::string a = argv[i];
         auto next = [&]() { return std::string(i + 1 < argc ? argv[++i] : ""); };
@@ -85,6 +85,7 @@ int main(int argc, char** argv) {
         else if (a == "--plan") planfile = next();
         else if (a == "--seeds") { std::string s = next(); size_t c = s.find(':'); s0 = strtoull(s.c_str(), nullptr, 10); s1 = c == std::string::npos ? s0 : strtoull(s.c_str() + c + 1, nullptr, 10); }
         else if (a == "--no-minimize") do_min = false;
+        else if (a == "--print-plan") print_plan = true;
         else if (a == "--dual") dual_frac = atof(next().c_str());
         else if (a == "--min-budget") min_budget = atoi(next().c_str());
         else if (a == "--list") { for (auto& kv : registry()) printf("%s\n", kv.first.c_str()); return 0; }
@@ -104,6 +105,7 @@ int main(int argc, char** argv) {
     int any_viol = 0;
     for (uint64_t seed = s0; seed <= s1; seed++) {
         Plan pl = have_file ? fileplan : w.gen(seed, tier, focus);
+        if (print_plan) { printf("%s", pl.to_text().c_str()); continue; }
         printf("@@BEGIN %llu\n", (unsigned long long)seed); fflush(stdout);
         RunResult r = w.run(pl);
         bool dual_ok = true;
